@@ -318,12 +318,24 @@ func RuleDOpenClose(c *core.Ctx) {
 		return
 	}
 	cbs := processorLiteral(p, lit)
-	isSetCall := func(ins ssa.Instruction, method string) bool {
+	var isSetCallN func(ins ssa.Instruction, method string, depth int) bool
+	isSetCall := func(ins ssa.Instruction, method string) bool { return isSetCallN(ins, method, 0) }
+	isSetCallN = func(ins ssa.Instruction, method string, depth int) bool {
 		call, ok := ins.(ssa.CallInstruction)
 		if !ok {
 			return false
 		}
 		callee := call.Common().StaticCallee()
+		// a helper of the checker that makes the call (isOpen(a) { return accounts.Has(a) })
+		if callee != nil && core.PkgPathOf(callee) == pkgCheck && callee.Blocks != nil && depth < 2 {
+			found := false
+			core.EachInstr(callee, func(i2 ssa.Instruction) {
+				if isSetCallN(i2, method, depth+1) {
+					found = true
+				}
+			})
+			return found
+		}
 		if callee == nil || core.PkgPathOf(callee) != pkgSet || core.BaseName(callee) != method {
 			return false
 		}
